@@ -5,17 +5,18 @@
   `(*EncryptedSSHIdentity).Unwrap` (agessh/encrypted_keys.go) is TRANSLATED from /repo on every run:
   the cached-key shortcut, the match loop, the "no match" return, the call of the passphrase
   callback, and the END of the function — the assignment of `i.decrypted` and the delegated
-  `Unwrap`. The middle (decrypting and parsing the key file, the type switch over `crypto` key types,
-  the comparison with the declared public key: lines the fragment cannot express) stands in the
-  translation as ONE abstract step (`funcSpec.regions`), a function of what it reads that either
-  hands on the decrypted identity or makes `Unwrap` return; the translator checks that it assigns to
+  `Unwrap`. The middle (decrypting and parsing the key file, the type switch over `crypto` key types:
+  lines the fragment cannot express) stands in the translation as ONE abstract step
+  (`funcSpec.regions`), a function of what it reads that either hands on the decrypted identity and
+  its public half or makes `Unwrap` return; the comparison of that public half with the DECLARED
+  public key is translated again (`pubKey.Equal(exp)`, a method of an anonymous interface value); the translator checks that it assigns to
   nothing of the receiver. Proved, for EVERY behaviour of that step: with a key cached the call is
   delegated and the callback is not touched; with nothing cached the callback is invoked exactly
   when `SshEnc.scanStanzas` answers `matched` (a callback — and a key-file step — that FAULT when
   called are never reached otherwise); and NO HISTORY is kept unless the key was validated: whenever
   the identity handed back differs from the one handed in, the prompt succeeded, the step ended
-  without an early return, and the only change is the remembered identity, which is the one that
-  answered the header (`encssh_no_history`; pins the repair F7: the key is cached only after it
+  without an early return, its public half was found EQUAL to the declared public key, and the only
+  change is the remembered identity, which is the one that answered the header (`encssh_no_history`; pins the repair F7: the key is cached only after it
   matched the declared public key). What the step itself does stays tied by the correspondence (call
   histories against the real identity with real key files).
 -/
@@ -24,44 +25,48 @@ namespace AgeModel
 namespace Tie.C19
 open Extracted
 
-theorem encssh_prompt_tie {R π ρ ι : Type} (cfg : SshEnc.Config R) (key : π)
+theorem encssh_prompt_tie {R π ρ ι κ ξ : Type} (cfg : SshEnc.Config R) (key : π)
     (Ty : π → Go.M Bytes) (hTy : Ty key = .ok cfg.keyType)
     (Fp : π → Go.M Bytes) (hFp : Fp key = .ok cfg.tag)
     (isNil : ι → Bool) (U : ι → List age_Stanza → Go.M (Bytes × Option Go.Err))
-    (Rg : agessh_EncryptedSSHIdentity π ρ ι → Option Go.Err → Bytes → Go.M (Go.Loop ι (Bytes × Option Go.Err))) (nilI : ι)
+    (Rg : agessh_EncryptedSSHIdentity π ρ ι → Option Go.Err → Bytes → Go.M (Go.Loop (ξ × ι) (Bytes × Option Go.Err)))
+    (nilX : ξ) (nilI : ι) (CPK : π → Go.M κ) (impl : π → Bool) (Eq : ξ → κ → Go.M Bool)
     (cb : Go.M (Bytes × Option Go.Err)) (rcp : ρ) (pem : Bytes) (dec : ι) (stanzas : List SshEnc.Stanza) :
-    agessh_EncryptedSSHIdentity_Unwrap isNil U Ty Fp Rg nilI ⟨key, rcp, pem, cb, dec⟩ (stanzas.map GoTie.toGoSshStanza) =
+    agessh_EncryptedSSHIdentity_Unwrap isNil U Ty Fp Rg nilX nilI CPK impl Eq ⟨key, rcp, pem, cb, dec⟩ (stanzas.map GoTie.toGoSshStanza) =
       if isNil dec = false then
         (U dec (stanzas.map GoTie.toGoSshStanza)).map (fun r => (r.1, r.2, ⟨key, rcp, pem, cb, dec⟩))
       else match SshEnc.scanStanzas cfg stanzas with
         | .malformed => .ok ([], some ⟨"agessh.(*EncryptedSSHIdentity).Unwrap", 0, []⟩, ⟨key, rcp, pem, cb, dec⟩)
         | .noMatch => .ok ([], age_ErrIncorrectIdentity, ⟨key, rcp, pem, cb, dec⟩)
-        | .matched => cb >>= GoTie.encsshAfterPrompt U Rg ⟨key, rcp, pem, cb, dec⟩ (stanzas.map GoTie.toGoSshStanza) :=
-  GoTie.encssh_prompt_tie cfg key Ty hTy Fp hFp isNil U Rg nilI cb rcp pem dec stanzas
+        | .matched => cb >>= GoTie.encsshAfterPrompt U Rg CPK impl Eq ⟨key, rcp, pem, cb, dec⟩ (stanzas.map GoTie.toGoSshStanza) :=
+  GoTie.encssh_prompt_tie cfg key Ty hTy Fp hFp isNil U Rg nilX nilI CPK impl Eq cb rcp pem dec stanzas
 
-theorem encssh_no_prompt {R π ρ ι : Type} (cfg : SshEnc.Config R) (key : π)
+theorem encssh_no_prompt {R π ρ ι κ ξ : Type} (cfg : SshEnc.Config R) (key : π)
     (Ty : π → Go.M Bytes) (hTy : Ty key = .ok cfg.keyType)
     (Fp : π → Go.M Bytes) (hFp : Fp key = .ok cfg.tag)
-    (isNil : ι → Bool) (U : ι → List age_Stanza → Go.M (Bytes × Option Go.Err)) (nilI : ι)
+    (isNil : ι → Bool) (U : ι → List age_Stanza → Go.M (Bytes × Option Go.Err)) (nilX : ξ) (nilI : ι)
+    (CPK : π → Go.M κ) (impl : π → Bool) (Eq : ξ → κ → Go.M Bool)
     (rcp : ρ) (pem : Bytes) (dec : ι) (hdec : isNil dec = true) (stanzas : List SshEnc.Stanza)
     (h : SshEnc.scanStanzas cfg stanzas ≠ .matched) :
-    ∃ res, agessh_EncryptedSSHIdentity_Unwrap isNil U Ty Fp (fun _ _ _ => .error (.panic 98)) nilI
+    ∃ res, agessh_EncryptedSSHIdentity_Unwrap isNil U Ty Fp (fun _ _ _ => .error (.panic 98)) nilX nilI CPK impl Eq
         ⟨key, rcp, pem, .error (.panic 99), dec⟩ (stanzas.map GoTie.toGoSshStanza) = .ok res ∧
       res.2.1 ≠ none ∧ res.2.2 = ⟨key, rcp, pem, .error (.panic 99), dec⟩ :=
-  GoTie.encssh_no_prompt cfg key Ty hTy Fp hFp isNil U nilI rcp pem dec hdec stanzas h
+  GoTie.encssh_no_prompt cfg key Ty hTy Fp hFp isNil U nilX nilI CPK impl Eq rcp pem dec hdec stanzas h
 
-theorem encssh_no_history {R π ρ ι : Type} (cfg : SshEnc.Config R) (key : π)
+theorem encssh_no_history {R π ρ ι κ ξ : Type} (cfg : SshEnc.Config R) (key : π)
     (Ty : π → Go.M Bytes) (hTy : Ty key = .ok cfg.keyType)
     (Fp : π → Go.M Bytes) (hFp : Fp key = .ok cfg.tag)
     (isNil : ι → Bool) (U : ι → List age_Stanza → Go.M (Bytes × Option Go.Err))
-    (Rg : agessh_EncryptedSSHIdentity π ρ ι → Option Go.Err → Bytes → Go.M (Go.Loop ι (Bytes × Option Go.Err))) (nilI : ι)
+    (Rg : agessh_EncryptedSSHIdentity π ρ ι → Option Go.Err → Bytes → Go.M (Go.Loop (ξ × ι) (Bytes × Option Go.Err)))
+    (nilX : ξ) (nilI : ι) (CPK : π → Go.M κ) (impl : π → Bool) (Eq : ξ → κ → Go.M Bool)
     (cb : Go.M (Bytes × Option Go.Err)) (rcp : ρ) (pem : Bytes) (dec : ι) (hdec : isNil dec = true) (stanzas : List SshEnc.Stanza)
     (res : Bytes × Option Go.Err × agessh_EncryptedSSHIdentity π ρ ι)
-    (hres : agessh_EncryptedSSHIdentity_Unwrap isNil U Ty Fp Rg nilI ⟨key, rcp, pem, cb, dec⟩ (stanzas.map GoTie.toGoSshStanza) = .ok res)
+    (hres : agessh_EncryptedSSHIdentity_Unwrap isNil U Ty Fp Rg nilX nilI CPK impl Eq ⟨key, rcp, pem, cb, dec⟩ (stanzas.map GoTie.toGoSshStanza) = .ok res)
     (hchg : res.2.2 ≠ ⟨key, rcp, pem, cb, dec⟩) :
-    ∃ pw d, cb = .ok (pw, none) ∧ Rg ⟨key, rcp, pem, cb, dec⟩ none pw = .ok (.next d) ∧
+    ∃ pw pk d exp, cb = .ok (pw, none) ∧ Rg ⟨key, rcp, pem, cb, dec⟩ none pw = .ok (.next (pk, d)) ∧
+      CPK key = .ok exp ∧ Eq pk exp = .ok true ∧
       res.2.2 = ⟨key, rcp, pem, cb, d⟩ ∧ U d (stanzas.map GoTie.toGoSshStanza) = .ok (res.1, res.2.1) :=
-  GoTie.encssh_no_history cfg key Ty hTy Fp hFp isNil U Rg nilI cb rcp pem dec hdec stanzas res hres hchg
+  GoTie.encssh_no_history cfg key Ty hTy Fp hFp isNil U Rg nilX nilI CPK impl Eq cb rcp pem dec hdec stanzas res hres hchg
 
 end Tie.C19
 end AgeModel
